@@ -44,6 +44,8 @@ type Config struct {
 	// epoch numbers beyond one and two bytes, all history vectors wrapped many times, a finality gap
 	// of hundreds of epochs). Fork epochs are absolute.
 	StartEpoch uint64 `json:"start_epoch,omitempty"`
+	// RecoverAfter: from this many slots into the run on, everybody attests again (a leak that ends)
+	RecoverAfter uint64 `json:"recover_after,omitempty"`
 }
 
 func (c *Config) baseSlot() uint64 { return c.StartEpoch * c.SPE }
@@ -83,6 +85,7 @@ func GenConfig(seed uint64, opt core.Options) *Config {
 		c.Validators = []int{257, 300, 333, 400, 520}[rng.Intn(5)]
 		c.Slots = rng.Range(int(c.SPE)*2, int(c.SPE)*4)
 	}
+	manyCommittees := largeRegistry && rng.Bool()
 	c.Nodes = rng.Range(1, 3)
 	c.Participation = []int{100, 100, 90, 70, 50, 30}[rng.Intn(6)]
 	c.SkipPct = []int{0, 5, 15, 30}[rng.Intn(4)]
@@ -146,6 +149,12 @@ func GenConfig(seed uint64, opt core.Options) *Config {
 	pick("INACTIVITY_PENALTY_QUOTIENT", 16, 1024, 67108864)
 	pick("MIN_SEED_LOOKAHEAD", 1, 1, 2)
 	pick("MAX_SEED_LOOKAHEAD", 2, 4)
+	if manyCommittees {
+		// more than 64 committees per epoch, a count per slot that is not a power of two: attestation
+		// subnets wrap around
+		c.Knobs["TARGET_COMMITTEE_SIZE"] = uint64(rng.Range(1, 2))
+		c.Knobs["MAX_COMMITTEES_PER_SLOT"] = []uint64{9, 11, 12, 13}[rng.Intn(4)]
+	}
 	if c.Knobs["MAX_SEED_LOOKAHEAD"] <= c.Knobs["MIN_SEED_LOOKAHEAD"] {
 		c.Knobs["MAX_SEED_LOOKAHEAD"] = c.Knobs["MIN_SEED_LOOKAHEAD"] + 1
 	}
@@ -198,6 +207,11 @@ func GenConfig(seed uint64, opt core.Options) *Config {
 		c.Knobs["MIN_EPOCHS_TO_INACTIVITY_PENALTY"] = 1
 		c.Knobs["EJECTION_BALANCE"] = []uint64{31_000_000_000, 30_000_000_000, 16_000_000_000}[rng.Intn(3)]
 		c.Knobs["EXIT_RATE"] = 0
+		if rng.Bool() {
+			// the offline validators come back half way: the leak ends inside the run (scores recover,
+			// finality resumes while scores are still high)
+			c.RecoverAfter = uint64(c.Slots) / 2
+		}
 	case "churn":
 		// exit storm and deposit flood against a churn limit of 1-2: queues spanning epochs
 		c.Participation = 100
@@ -611,7 +625,11 @@ func (w *World) attest(box *stateBox, head *blockRec, slot uint64) {
 		bits[len(comm)/8] |= 1 << (uint(len(comm)) % 8)
 		var signers []int
 		for pos, vi := range comm {
-			if w.rng.Intn(100) < w.cfg.Participation {
+			part := w.cfg.Participation
+			if w.cfg.RecoverAfter > 0 && slot >= w.cfg.baseSlot()+w.cfg.RecoverAfter {
+				part = 100
+			}
+			if w.rng.Intn(100) < part {
 				if ki := w.keyOf(st, vi); ki >= 0 {
 					bits[pos/8] |= 1 << (uint(pos) % 8)
 					signers = append(signers, ki)
@@ -820,8 +838,14 @@ func (w *World) produce(parent *blockRec, slot uint64) (*blockRec, error) {
 	if w.cfg.has("deposits") && w.cfg.has("eth1_split") && w.rng.Chance(1, 8) {
 		// a proposer that follows another eth1 block with the same deposits: votes split, a value can
 		// sit at exactly half of the period's votes
-		eth1.BlockHash = fnvRoot("eth1blk-alt", uint64(eth1.DepositCount)<<16|slot/period)
-		w.res.Stat("eth1_votes_for_the_other_eth1_block", 1)
+		if w.rng.Chance(1, 3) {
+			// same eth1 block and deposit count, another deposit root (a proposer with a broken deposit tree)
+			eth1.DepositRoot = fnvRoot("eth1root-alt", uint64(eth1.DepositCount)<<16|slot/period)
+			w.res.Stat("eth1_votes_with_another_deposit_root", 1)
+		} else {
+			eth1.BlockHash = fnvRoot("eth1blk-alt", uint64(eth1.DepositCount)<<16|slot/period)
+			w.res.Stat("eth1_votes_for_the_other_eth1_block", 1)
+		}
 	}
 	if !w.cfg.has("deposits") {
 		eth1, _ = st.Eth1Data()
@@ -865,6 +889,21 @@ func (w *World) produce(parent *blockRec, slot uint64) (*blockRec, error) {
 	var atts phase0.Attestations
 	var keep, picked []*phase0.Attestation
 	seen := map[common.Root]bool{}
+	// phase0 records every included attestation in one of two bounded lists (MAX_ATTESTATIONS *
+	// SLOTS_PER_EPOCH entries each): a block that overflows one of them is invalid, so an honest
+	// proposer leaves the vote out
+	roomPrev, roomCur := uint64(1)<<40, uint64(1)<<40
+	if p0, ok := st.BeaconState.(*phase0.BeaconStateView); ok {
+		lim := uint64(w.spec.MAX_ATTESTATIONS) * uint64(w.spec.SLOTS_PER_EPOCH)
+		if l, err := p0.PreviousEpochAttestations(); err == nil {
+			n, _ := l.Length()
+			roomPrev = lim - n
+		}
+		if l, err := p0.CurrentEpochAttestations(); err == nil {
+			n, _ := l.Length()
+			roomCur = lim - n
+		}
+	}
 	for _, a := range w.atts {
 		as := uint64(a.Data.Slot)
 		ae := w.epochOf(as)
@@ -928,6 +967,19 @@ func (w *World) produce(parent *blockRec, slot uint64) (*blockRec, error) {
 		}
 		if w.cfg.has("late_atts") && w.rng.Chance(1, 3) {
 			continue // included by a later block instead
+		}
+		if ae == epoch {
+			if roomCur == 0 {
+				w.res.Stat("attestations_left_out_pending_list_full", 1)
+				continue
+			}
+			roomCur--
+		} else {
+			if roomPrev == 0 {
+				w.res.Stat("attestations_left_out_pending_list_full", 1)
+				continue
+			}
+			roomPrev--
 		}
 		seen[key] = true
 		if as+w.cfg.SPE < slot {
@@ -1133,7 +1185,8 @@ func (w *World) produce(parent *blockRec, slot uint64) (*blockRec, error) {
 		lh, _ := bs.LatestExecutionPayloadHeader()
 		lhr, _ := lh.Raw()
 		b.ExecutionPayload = bellatrix.ExecutionPayload{ParentHash: lhr.BlockHash, PrevRandao: prevRandao, Timestamp: common.Timestamp(ts), BlockHash: blockHash, BlockNumber: view.Uint64View(w.payloadN), GasLimit: 30_000_000}
-		premerge := lhr.BlockHash == common.Root{}
+		// (merge complete = the state's payload header is not the default header; its block hash alone says nothing)
+		premerge := lhr.HashTreeRoot(tree.GetHashFn()) == (&bellatrix.ExecutionPayloadHeader{}).HashTreeRoot(tree.GetHashFn())
 		if premerge {
 			b.ExecutionPayload.ParentHash = fnvRoot("terminal-pow", 1)
 		}
@@ -1144,6 +1197,12 @@ func (w *World) produce(parent *blockRec, slot uint64) (*blockRec, error) {
 		} else {
 			if premerge {
 				w.res.Stat("blocks_merge_transition", 1)
+				if w.cfg.has("late_merge") && w.rng.Chance(1, 3) {
+					// the consensus layer does not interpret the block hash: the engine does. A payload with an
+					// all-zero hash is still a payload (it is not the empty payload) and is shown to the engine
+					b.ExecutionPayload.BlockHash = common.Hash32{}
+					w.res.Stat("blocks_merge_transition_with_zero_block_hash", 1)
+				}
 			}
 			kinds |= kPayload
 		}
